@@ -67,9 +67,17 @@ pub(crate) mod verif_sym {
     pub static mut T_BIND: [u8; TL] = [0; TL];
     pub static mut T_BIND_LEN: usize = 0;
     pub static mut T_INITS: usize = 0;
-    pub fn reset_transcript() { unsafe { T_DST_LEN = 0; T_BIND_LEN = 0; T_INITS = 0; } }
+    // log of the first LN transcripts since the last reset (for whole-function harnesses that perform several derivations)
+    pub const LN: usize = 10;
+    pub const LB: usize = 64;
+    pub static mut L_SEED: [[u8; 16]; LN] = [[0; 16]; LN];
+    pub static mut L_DST: [[u8; 16]; LN] = [[0; 16]; LN];
+    pub static mut L_DST_LEN: [usize; LN] = [0; LN];
+    pub static mut L_BIND: [[u8; LB]; LN] = [[0; LB]; LN];
+    pub static mut L_BIND_LEN: [usize; LN] = [0; LN];
+    pub fn reset_transcript() { unsafe { T_DST_LEN = 0; T_BIND_LEN = 0; T_INITS = 0; L_DST_LEN = [0; LN]; L_BIND_LEN = [0; LN]; } }
     #[derive(Clone, Debug)]
-    pub struct RecXof;
+    pub struct RecXof(pub usize);
     pub struct ZeroStream;
     impl TryRng for ZeroStream {
         type Error = Infallible;
@@ -81,21 +89,32 @@ pub(crate) mod verif_sym {
         type SeedStream = ZeroStream;
         fn init(seed_bytes: &[u8; 16], dst_parts: &[&[u8]]) -> Self {
             unsafe {
+                let id = T_INITS;
                 T_INITS += 1; T_SEED = *seed_bytes; T_DST_LEN = 0; T_BIND_LEN = 0;
+                if id < LN { L_SEED[id] = *seed_bytes; L_DST_LEN[id] = 0; L_BIND_LEN[id] = 0; }
                 let mut k = 0;
                 while k < dst_parts.len() {
                     let p = dst_parts[k];
                     let mut i = 0;
-                    while i < p.len() { assert!(T_DST_LEN < TL); T_DST[T_DST_LEN] = p[i]; T_DST_LEN += 1; i += 1; }
+                    while i < p.len() {
+                        assert!(T_DST_LEN < TL); T_DST[T_DST_LEN] = p[i]; T_DST_LEN += 1;
+                        if id < LN && L_DST_LEN[id] < 16 { L_DST[id][L_DST_LEN[id]] = p[i]; L_DST_LEN[id] += 1; }
+                        i += 1;
+                    }
                     k += 1;
                 }
+                RecXof(id)
             }
-            RecXof
         }
         fn update(&mut self, binder_part: &[u8]) {
             unsafe {
+                let id = self.0;
                 let mut i = 0;
-                while i < binder_part.len() { assert!(T_BIND_LEN < TL); T_BIND[T_BIND_LEN] = binder_part[i]; T_BIND_LEN += 1; i += 1; }
+                while i < binder_part.len() {
+                    assert!(T_BIND_LEN < TL); T_BIND[T_BIND_LEN] = binder_part[i]; T_BIND_LEN += 1;
+                    if id < LN { assert!(L_BIND_LEN[id] < LB); L_BIND[id][L_BIND_LEN[id]] = binder_part[i]; L_BIND_LEN[id] += 1; }
+                    i += 1;
+                }
             }
         }
         fn into_seed_stream(self) -> ZeroStream { ZeroStream }
